@@ -112,7 +112,61 @@ def check_obs(case, obs):
     return res
 
 
+def _alias_stop(case):
+    """one layer object registered under TWO names (a dotted-name alias given as a string next to the class); each name's
+    group starts with a failing test.  With -x nothing starts after the first failure -- whichever group runs first."""
+    import io
+    import os
+    import shutil
+    import sys
+    import tempfile
+    from contextlib import redirect_stdout, redirect_stderr
+    import zope.testrunner
+    d = tempfile.mkdtemp(prefix='c16alias')
+    pkg = 'c16alias_%d' % (abs(hash(d)) % 100000)
+    try:
+        os.mkdir(os.path.join(d, pkg))
+        w = lambda n, t: open(os.path.join(d, pkg, n), 'w').write(t)
+        w('__init__.py', '')
+        w('layers.py', 'class L:\n    @classmethod\n    def setUp(cls): pass\n    @classmethod\n    def tearDown(cls): pass\n')
+        w('alias.py', 'from %s.layers import L as L2\n' % pkg)
+        w('tests.py', 'import unittest\nfrom %s.layers import L\nRAN = []\n'
+          'class A(unittest.TestCase):\n    layer = L\n'
+          '    def test_a1(self):\n        RAN.append("a1"); self.fail("planned")\n'
+          '    def test_a2(self): RAN.append("a2")\n'
+          'class B(unittest.TestCase):\n    layer = %r\n'
+          '    def test_b1(self):\n        RAN.append("b1"); %s\n'
+          '    def test_b2(self): RAN.append("b2")\n'
+          'def test_suite():\n    l = unittest.defaultTestLoader.loadTestsFromTestCase\n'
+          '    return unittest.TestSuite([l(A), l(B)])\n'
+          % (pkg, pkg + '.alias.L2', 'raise ValueError("planned")' if case.get('error') else 'self.fail("planned")'))
+        out = io.StringIO()
+        with redirect_stdout(out), redirect_stderr(out):
+            failed = zope.testrunner.run_internal(['--path', d, '--tests-pattern', '^tests$'], ['run'] + list(case['args']))
+        ran = list(sys.modules[pkg + '.tests'].RAN)
+    finally:
+        for m in [m for m in sys.modules if m == pkg or m.startswith(pkg + '.')]:
+            del sys.modules[m]
+        shutil.rmtree(d, ignore_errors=True)
+    res = []
+    if len(ran) != 1:
+        res.append(('stop-on-error:test-started-after:alias-layer-names',
+                    'one layer registered under two names, the first test of each group fails; with %s the tests %r ran: '
+                    'after the first failure no further test may start' % (' '.join(case['args']), ran)))
+    if not failed:
+        res.append(('stop-on-error:verdict-not-failed:alias-layer-names', 'run_internal returned %r' % (failed,)))
+    return res
+
+
+def gen_alias():
+    for args in (['-x'], ['--stop-on-error', '-v']):
+        for error in (False, True):
+            yield {'mode': 'alias-stop', 'args': args, 'error': error, 'spec': {'tests': [{'k': 'fail'}], 'args': args}}
+
+
 def check(case):
+    if case.get('mode') == 'alias-stop':
+        return _alias_stop(case)
     obs = tw.execute(case['spec'])
     return check_obs(case, obs)
 
@@ -226,6 +280,7 @@ def run(budget_s, seed, tier):
          gen_layer_setup()),
         ('stop while a layer that refuses its tearDown (NotImplementedError) is set up on top of ordinary base layers', True,
          gen_refused_teardown()),
+        ('one layer object under two registered names, each group starting with a failing test (-x)', True, gen_alias()),
         ('all pairs over %d kinds followed by a test in another layer'
          % (len(BAD_KINDS) + len(GOOD_KINDS)), True, gen_pairs()),
         ('random', False, gen_random(seed)),
